@@ -88,6 +88,31 @@ pub fn sdp_fingerprint(der: &[u8]) -> String {
     d.iter().map(|b| format!("{:02X}", b)).collect::<Vec<_>>().join(":")
 }
 
+/// Octets named by an expected-fingerprint string under a LENIENT reading: an algorithm token in
+/// front ("sha-256 ") is dropped, case and the separators ':' / white space are ignored. None
+/// when what remains is not an even number of hex digits.
+pub fn lenient_fingerprint_octets(s: &str) -> Option<Vec<u8>> {
+    let t = s.trim();
+    let t = match t.split_once(char::is_whitespace) {
+        Some((alg, rest)) if alg.to_ascii_lowercase().starts_with("sha") => rest,
+        _ => t,
+    };
+    let hex: Vec<u8> = t.bytes().filter(|b| *b != b':' && !b.is_ascii_whitespace()).collect();
+    if hex.is_empty() || hex.len() % 2 != 0 || !hex.iter().all(|b| b.is_ascii_hexdigit()) {
+        return None;
+    }
+    let v = |b: u8| (b as char).to_digit(16).unwrap() as u8;
+    Some(hex.chunks(2).map(|c| (v(c[0]) << 4) | v(c[1])).collect())
+}
+
+/// Does the expected-fingerprint string name exactly the SHA-256 of `der` (lenient reading)?
+pub fn fingerprint_names(expected: &str, der: &[u8]) -> bool {
+    match lenient_fingerprint_octets(expected) {
+        Some(o) => o.len() == 32 && o[..] == Sha256::digest(der)[..],
+        None => false,
+    }
+}
+
 /// Certificate list of a Certificate message body (RFC 5246 7.4.2); None when malformed.
 pub fn certificate_list(body: &[u8]) -> Option<Vec<Vec<u8>>> {
     if body.len() < 3 {
@@ -431,6 +456,18 @@ mod tests {
         let ske = parse_ske(&parsed[0].body).unwrap();
         assert_eq!(ske.signature, vec![1, 2, 3]);
         assert_eq!(with_seq(&m, 9)[4..6], [0, 9]);
+    }
+
+    #[test]
+    fn lenient_fingerprint() {
+        let der = b"abc";
+        let canon = sdp_fingerprint(der);
+        for f in [canon.clone(), format!("sha-256 {canon}"), canon.to_lowercase(), canon.replace(':', "")] {
+            assert!(fingerprint_names(&f, der), "{f}");
+        }
+        for f in [String::new(), "   ".into(), "00".into(), format!("{canon}:00"), format!("{canon}:ZZ"), canon[3..].to_string(), "sha-256".into()] {
+            assert!(!fingerprint_names(&f, der), "{f}");
+        }
     }
 
     #[test]
